@@ -13,9 +13,14 @@ import (
 
 func lexImpl(text string) string {
 	return guard(func() string {
-		toks := dns.VerifLex(text, 1<<20)
+		// the model's stream ends after at most 4n+3 tokens (theorem lexAll_complete): more than that is a runaway
+		max := 4*len(text) + 8
+		toks := dns.VerifLex(text, max)
 		if len(toks) == 0 {
 			return "-"
+		}
+		if len(toks) >= max {
+			return fmt.Sprintf("runaway: %d tokens and no end for %d octets of input", len(toks), len(text))
 		}
 		parts := make([]string, len(toks))
 		hd := func(s string) string {
@@ -108,5 +113,31 @@ func lexStream(c *Ctx, n int) {
 			k := []int{510, 511, 512, 513, 1023, 1024, 1025, 2048}[r.Intn(8)]
 			one("long", strings.Repeat("y", k)+[]string{" ", "\n", ";", "\"", ""}[r.Intn(5)]+genLexSoup(r))
 		}
+	}
+}
+
+// zoneTextStream: the header-level reading of whole zone texts — Lean: lexer model, grouping into abstract tokens
+// (DnsModel/ZoneText.lean), header machine — against the real ZoneParser, on every rendering style of generated zones.
+// Texts the parser refuses are not compared (the first error may come from RDATA, which the header model does not see).
+func zoneTextStream(c *Ctx, n int) {
+	r := c.R
+	for i := 0; i < n; i++ {
+		ls := genZone(r)
+		origin := []string{"example.org.", "", ".", "Zone.Example."}[r.Intn(4)]
+		defTTL := []int{-1, 3600, 0}[r.Intn(3)]
+		style := r.Intn(3)
+		txt := renderZone(r, ls, style, false)
+		recs, res := parseZone(txt, origin, defTTL, nil)
+		if res != "ok" {
+			c.Hit("zone-text:rejected")
+			continue
+		}
+		c.Hit(fmt.Sprintf("zone-text:accepted:style%d", style))
+		dt := "-"
+		if defTTL >= 0 {
+			dt = fmt.Sprint(defTTL)
+		}
+		got := strings.TrimSpace("ok " + hdrsOf(recs))
+		c.OpK("zone-text", fmt.Sprintf("zone.text %s %s %s", strOrDash(hxs(origin)), dt, strOrDash(hxs(txt))), got, len(recs) > 1, "zone-text")
 	}
 }
